@@ -108,6 +108,10 @@ thread_local! {
 }
 
 static FOREIGN_PANIC: Mutex<Option<(String, String)>> = Mutex::new(None);
+/// message -> location of the most recent panic with that message, on any thread. Lets `guard`
+/// attribute a panic that was raised on another thread (rayon worker) and re-raised on the
+/// caller with `resume_unwind`, which carries the payload but not the location.
+static MSG_LOC: Mutex<Option<std::collections::HashMap<String, String>>> = Mutex::new(None);
 static HOOK_INSTALLED: AtomicBool = AtomicBool::new(false);
 
 /// Installs a panic hook that records (location, message) per thread; panics on threads that
@@ -135,6 +139,14 @@ pub fn install_panic_hook() {
         } else {
             "<non-string panic>".into()
         };
+        {
+            let mut m = MSG_LOC.lock().unwrap_or_else(|e| e.into_inner());
+            let m = m.get_or_insert_with(Default::default);
+            if m.len() > 20_000 {
+                m.clear();
+            }
+            m.insert(msg.clone(), loc.clone());
+        }
         let guarded = QUIET_THREAD.with(|q| *q.borrow());
         LAST_PANIC.with(|p| *p.borrow_mut() = Some((loc.clone(), msg.clone())));
         if !guarded {
@@ -178,9 +190,28 @@ pub fn guard<T>(f: impl FnOnce() -> T) -> Result<T, (String, String)> {
     QUIET_THREAD.with(|q| *q.borrow_mut() = prev);
     match r {
         Ok(v) => Ok(v),
-        Err(_) => Err(LAST_PANIC
-            .with(|p| p.borrow_mut().take())
-            .unwrap_or_else(|| ("?".into(), "?".into()))),
+        Err(payload) => {
+            if let Some(x) = LAST_PANIC.with(|p| p.borrow_mut().take()) {
+                return Err(x);
+            }
+            // raised elsewhere and resumed here: recover the location through the message
+            let msg = if let Some(s) = payload.downcast_ref::<&str>() {
+                s.to_string()
+            } else if let Some(s) = payload.downcast_ref::<String>() {
+                s.clone()
+            } else {
+                "<non-string panic>".into()
+            };
+            let loc = MSG_LOC
+                .lock()
+                .unwrap_or_else(|e| e.into_inner())
+                .as_ref()
+                .and_then(|m| m.get(&msg).cloned())
+                .unwrap_or_else(|| "?".into());
+            // the foreign-panic marker set by the hook belongs to this resumed panic
+            let _ = take_foreign_panic();
+            Err((loc, msg))
+        }
     }
 }
 
@@ -276,6 +307,7 @@ pub struct Report {
     violations: Mutex<Vec<Violation>>,
     known: Vec<KnownFinding>,
     known_hit: Mutex<BTreeMap<String, u64>>,
+    known_samples: Mutex<BTreeMap<String, Value>>,
     pub stop: AtomicBool,
     pub rule: Mutex<String>,
     pub assumptions: Mutex<Vec<String>>,
@@ -336,6 +368,7 @@ impl Report {
                 .filter(|k| k.property == env.prop)
                 .collect(),
             known_hit: Mutex::new(BTreeMap::new()),
+            known_samples: Mutex::new(BTreeMap::new()),
             stop: AtomicBool::new(false),
             rule: Mutex::new(String::new()),
             assumptions: Mutex::new(vec![]),
@@ -406,6 +439,13 @@ impl Report {
     }
 
     /// A case whose failure matches a listed known finding: counted and excluded.
+    pub fn record_known_sample(&self, sig: &str, sample: impl FnOnce() -> Value) {
+        let mut ks = self.known_samples.lock().unwrap();
+        if !ks.contains_key(sig) {
+            ks.insert(sig.to_string(), sample());
+        }
+    }
+
     pub fn record_known(&self, sub: &str, sig: &str) {
         PROGRESS.fetch_add(1, Ordering::Relaxed);
         let mut subs = self.subs.lock().unwrap();
@@ -534,6 +574,15 @@ impl Report {
             json!(all_exhaustive.unwrap_or(false)),
         );
         coverage.insert("known_finding_excluded".into(), json!(known_excluded));
+        {
+            let ks = self.known_samples.lock().unwrap();
+            if !ks.is_empty() {
+                coverage.insert(
+                    "known_finding_samples".into(),
+                    Value::Object(ks.iter().map(|(k, v)| (k.clone(), v.clone())).collect()),
+                );
+            }
+        }
         for (k, v) in self.extra.lock().unwrap().iter() {
             coverage.insert(k.clone(), v.clone());
         }
@@ -645,6 +694,9 @@ fn eval_case<C: Serialize>(
             if rep.is_known(&f.signature) {
                 if counting {
                     rep.record_known(sub, &f.signature);
+                    rep.record_known_sample(&f.signature, || {
+                        json!({"sub": sub, "message": f.msg, "case": serde_json::to_value(case).unwrap_or(Value::Null)})
+                    });
                 }
                 Ok(())
             } else {
@@ -673,6 +725,8 @@ where
     }
     let mut runner = TestRunner::new_with_rng(config(n), rng_for(mix(seed, hash_str(sub))));
     let failed = AtomicBool::new(false);
+    let hung = AtomicBool::new(false);
+    let first_fail: Mutex<Option<Fail>> = Mutex::new(None);
     let track_current = std::env::var("SV_TRACK_CURRENT").is_ok();
     let res = runner.run(&strategy, |case| {
         if rep.stopped() && !failed.load(Ordering::Relaxed) {
@@ -682,11 +736,22 @@ where
         if track_current {
             set_current_case(sub, serde_json::to_value(&case).unwrap_or(Value::Null));
         }
+        if hung.load(Ordering::Relaxed) {
+            // a hang or crash is not shrunk (every step would cost a time-out): report as found
+            return Ok(());
+        }
         let counting = !failed.load(Ordering::Relaxed);
         match eval_case(rep, sub, &case, &check, counting) {
             Ok(()) => Ok(()),
             Err(f) => {
                 failed.store(true, Ordering::Relaxed);
+                if f.signature.starts_with("hang@") || f.signature.starts_with("crash@") {
+                    hung.store(true, Ordering::Relaxed);
+                }
+                let mut ff = first_fail.lock().unwrap();
+                if ff.is_none() {
+                    *ff = Some(f.clone());
+                }
                 Err(TestCaseError::fail(f.signature))
             }
         }
@@ -694,10 +759,14 @@ where
     match res {
         Ok(()) => true,
         Err(TestError::Fail(_, minimal)) => {
-            // re-evaluate the minimal case to get its message
-            let fail = match guard_case(sub, || check(&minimal)) {
-                Err(f) => f,
-                Ok(_) => Fail::new("flaky", "minimal case passed when re-run"),
+            // re-evaluate the minimal case to get its message (a hang is reported as found)
+            let fail = if hung.load(Ordering::Relaxed) {
+                first_fail.lock().unwrap().clone().unwrap()
+            } else {
+                match guard_case(sub, || check(&minimal)) {
+                    Err(f) => f,
+                    Ok(_) => Fail::new("flaky", "minimal case passed when re-run"),
+                }
             };
             rep.record_violation(sub, fail, serde_json::to_value(&minimal).unwrap());
             false
@@ -817,4 +886,188 @@ pub fn ulp32(x: f32) -> f32 {
 
 pub fn close(a: f64, b: f64, abs: f64, rel: f64) -> bool {
     (a - b).abs() <= abs + rel * a.abs().max(b.abs())
+}
+
+// ---------------------------------------------------------------------------------------------
+// process isolation: evaluate cases in child processes so that a hang or a hard crash of the
+// code under test costs one child, not the run.
+
+use std::io::{BufRead, BufReader, Write};
+use std::process::{Child, ChildStdin, Command, Stdio};
+use std::sync::mpsc::{channel, Receiver, RecvTimeoutError};
+use std::time::Duration;
+
+struct IsoChild {
+    child: Child,
+    stdin: ChildStdin,
+    lines: Receiver<String>,
+}
+
+impl IsoChild {
+    fn spawn(prop: &str, sub: &str) -> std::io::Result<Self> {
+        let exe = std::env::current_exe()?;
+        let mut child = Command::new(exe)
+            .arg(prop)
+            .arg("--child")
+            .arg(sub)
+            .stdin(Stdio::piped())
+            .stdout(Stdio::piped())
+            .stderr(Stdio::null())
+            .spawn()?;
+        let stdin = child.stdin.take().unwrap();
+        let stdout = child.stdout.take().unwrap();
+        let (tx, rx) = channel();
+        std::thread::spawn(move || {
+            let r = BufReader::new(stdout);
+            for l in r.lines() {
+                match l {
+                    Ok(l) => {
+                        if tx.send(l).is_err() {
+                            break;
+                        }
+                    }
+                    Err(_) => break,
+                }
+            }
+        });
+        Ok(IsoChild { child, stdin, lines: rx })
+    }
+
+    fn kill(mut self) {
+        let _ = self.child.kill();
+        let _ = self.child.wait();
+    }
+}
+
+pub struct IsoPool {
+    prop: String,
+    sub: String,
+    timeout: Duration,
+    idle: Mutex<Vec<IsoChild>>,
+    pub timeouts: AtomicU64,
+    pub crashes: AtomicU64,
+}
+
+fn intern(s: &str) -> &'static str {
+    static TABLE: Mutex<Option<std::collections::HashSet<&'static str>>> = Mutex::new(None);
+    let mut t = TABLE.lock().unwrap();
+    let t = t.get_or_insert_with(Default::default);
+    if let Some(x) = t.get(s) {
+        return x;
+    }
+    let leaked: &'static str = Box::leak(s.to_string().into_boxed_str());
+    t.insert(leaked);
+    leaked
+}
+
+impl IsoPool {
+    pub fn new(prop: &str, sub: &str, timeout: Duration) -> Self {
+        Self {
+            prop: prop.to_string(),
+            sub: sub.to_string(),
+            timeout,
+            idle: Mutex::new(vec![]),
+            timeouts: AtomicU64::new(0),
+            crashes: AtomicU64::new(0),
+        }
+    }
+
+    /// Evaluates one serialized case in a child. A child that does not answer within the
+    /// timeout is killed: `hang@<sub>`; a child that dies: `crash@<sub>`.
+    pub fn eval<C: Serialize>(&self, case: &C) -> CaseResult {
+        let line = serde_json::to_string(case).unwrap();
+        let mut child = match self.idle.lock().unwrap().pop() {
+            Some(c) => c,
+            None => IsoChild::spawn(&self.prop, &self.sub)
+                .map_err(|e| Fail::new("harness-spawn", format!("cannot spawn child: {}", e)))?,
+        };
+        if writeln!(child.stdin, "{}", line).is_err() || child.stdin.flush().is_err() {
+            child.kill();
+            self.crashes.fetch_add(1, Ordering::Relaxed);
+            return Err(Fail::new(format!("crash@{}", self.sub), "child process died before accepting the case".to_string()));
+        }
+        match child.lines.recv_timeout(self.timeout) {
+            Ok(l) => {
+                self.idle.lock().unwrap().push(child);
+                let v: Value = serde_json::from_str(&l)
+                    .map_err(|e| Fail::new("harness-protocol", format!("bad child answer {:?}: {}", l, e)))?;
+                if let Some(ok) = v.get("ok") {
+                    let labels = ok
+                        .get("labels")
+                        .and_then(|l| l.as_array())
+                        .map(|a| a.iter().filter_map(|x| x.as_str()).map(intern).collect())
+                        .unwrap_or_default();
+                    Ok(CaseOk {
+                        nontrivial: ok.get("nontrivial").and_then(|b| b.as_bool()).unwrap_or(false),
+                        labels,
+                    })
+                } else if let Some(f) = v.get("fail") {
+                    Err(Fail::new(
+                        f.get("signature").and_then(|s| s.as_str()).unwrap_or("?"),
+                        f.get("msg").and_then(|s| s.as_str()).unwrap_or("?"),
+                    ))
+                } else {
+                    Err(Fail::new("harness-protocol", format!("bad child answer {:?}", l)))
+                }
+            }
+            Err(RecvTimeoutError::Timeout) => {
+                child.kill();
+                self.timeouts.fetch_add(1, Ordering::Relaxed);
+                Err(Fail::new(
+                    format!("hang@{}", self.sub),
+                    format!("no answer within {:?} (the child evaluating the case was killed)", self.timeout),
+                ))
+            }
+            Err(RecvTimeoutError::Disconnected) => {
+                child.kill();
+                self.crashes.fetch_add(1, Ordering::Relaxed);
+                Err(Fail::new(format!("crash@{}", self.sub), "child process died while evaluating the case".to_string()))
+            }
+        }
+    }
+
+    pub fn shutdown(&self) {
+        for c in self.idle.lock().unwrap().drain(..) {
+            c.kill();
+        }
+    }
+}
+
+impl Drop for IsoPool {
+    fn drop(&mut self) {
+        self.shutdown();
+    }
+}
+
+/// Child side of `IsoPool`: one JSON case per input line, one JSON answer per output line.
+pub fn child_loop(sub: &str, replay: fn(&str, Value) -> Option<CaseResult>) -> i32 {
+    let stdin = std::io::stdin();
+    let stdout = std::io::stdout();
+    for line in stdin.lock().lines() {
+        let line = match line {
+            Ok(l) => l,
+            Err(_) => break,
+        };
+        if line.trim().is_empty() {
+            continue;
+        }
+        let v: Value = match serde_json::from_str(&line) {
+            Ok(v) => v,
+            Err(e) => {
+                let mut o = stdout.lock();
+                let _ = writeln!(o, "{}", json!({"fail": {"signature": "harness-protocol", "msg": format!("bad case: {}", e)}}));
+                let _ = o.flush();
+                continue;
+            }
+        };
+        let r = replay(sub, v).unwrap_or_else(|| Err(Fail::new("harness-protocol", format!("unknown sub-check {}", sub))));
+        let ans = match r {
+            Ok(ok) => json!({"ok": {"nontrivial": ok.nontrivial, "labels": ok.labels}}),
+            Err(f) => json!({"fail": {"signature": f.signature, "msg": f.msg}}),
+        };
+        let mut o = stdout.lock();
+        let _ = writeln!(o, "{}", ans);
+        let _ = o.flush();
+    }
+    0
 }
